@@ -125,7 +125,9 @@ class TagValue:
                 self.compiled = FilteredDynamicExpression(parser, first_serialized, filters_serialized)
                 return
 
-        if is_dynamic_expression(serialized):
+        # NOTE: A value with filters is never a dynamic expression as a whole: `"a"|add:"{{ x }}"` starts and ends
+        #       with a quote and contains a tag, but the tag sits in the filter argument, which is a plain string.
+        if len(self.parts) <= 1 and is_dynamic_expression(serialized):
             self.compiled = DynamicFilterExpression(parser, serialized)
         else:
             self.compiled = FilterExpression(serialized, parser)
